@@ -3,6 +3,7 @@ package main
 import (
 	"encoding/json"
 	"fmt"
+	"math"
 	"os"
 	"strings"
 	"time"
@@ -36,6 +37,10 @@ func rtree(v *lisp.LVal, depth int) interface{} {
 	case lisp.LInt:
 		return J{"t": "int", "n": v.Int, "q": q}
 	case lisp.LFloat:
+		if math.IsInf(v.Float, 0) || math.IsNaN(v.Float) {
+			// (JSON has no spelling for these: a reader that produces one is reported by its text)
+			return J{"t": "float", "f": 0, "nonfinite": fmt.Sprint(v.Float), "q": q}
+		}
 		return J{"t": "float", "f": v.Float, "q": q}
 	case lisp.LString:
 		return J{"t": "str", "s": v.Str, "q": q}
